@@ -1,5 +1,7 @@
 import SqfModel.Print
 import SqfModel.Compile
+import SqfModel.Lemmas.PrettyCompile
+import SqfModel.Props.C01
 /-!
 # C06 — str / literals round-trip
 
@@ -125,6 +127,139 @@ theorem C06_array_elements_context (h : List (List Val)) (f : Nat) (rs r : List 
     (k : Nat) (h1 : recon h f rs 0 false = some (e, r)) :
     reconElems h (f + 1) (k + 1) rs acc = reconElems h f k r (e :: acc) := by
   rw [reconElems]; simp [h1]
+
+/-! ## Signs in front of number literals belong to the literal
+
+`str` prints the push of a negative number as `-279`; that text is a sign in front of a NUMBER token. For the recompiled
+code to be instruction-for-instruction equal, the compiler must fold every chain of signs in front of a number literal
+into one push (repo fix `7ae19aa`: `- + 279` used to compile to a push and a call). -/
+
+/-- a chain of unary operators in front of a tree -/
+def signChain : List Name → Ast → Ast
+  | [], a => a
+  | n :: ns, a => .unary n (signChain ns a)
+
+/-- what the chain does to the number -/
+def applySigns : List Name → Val → Val
+  | [], v => v
+  | n :: ns, v => if n == [45] then negateVal (applySigns ns v) else applySigns ns v
+
+theorem applySigns_scalar (ns : List Name) (v : Val) (hv : (∃ d, v = .num d) ∨ v = .nan) :
+    (∃ d, applySigns ns v = .num d) ∨ applySigns ns v = .nan := by
+  induction ns with
+  | nil => exact hv
+  | cons n ns ih =>
+    simp only [applySigns]
+    split
+    · rcases ih with ⟨d, hd⟩ | hn
+      · exact Or.inl ⟨d.negate, by rw [hd]; rfl⟩
+      · exact Or.inr (by rw [hn]; rfl)
+    · exact ih
+
+theorem valOfNumberText_scalar (t : Name) : (∃ d, valOfNumberText t = .num d) ∨ valOfNumberText t = .nan := by
+  unfold valOfNumberText
+  simp only []
+  split
+  · exact Or.inr rfl
+  · exact Or.inl ⟨_, rfl⟩
+
+/-- **every non-empty chain of signs in front of a number literal compiles to the push of one number**: the literal with
+the signs applied — never to a call -/
+theorem C06_sign_chain_folds (ns : List Name) (hne : ns ≠ []) (hs : ∀ n ∈ ns, isSign n = true) (t : Name) :
+    compile (signChain ns (.leaf (.num t))) = [.push (applySigns ns (valOfNumberText t))] := by
+  induction ns with
+  | nil => exact absurd rfl hne
+  | cons n ns ih =>
+    have hn : isSign n = true := hs n (List.mem_cons_self ..)
+    cases ns with
+    | nil =>
+      simp only [signChain, applySigns]
+      rw [compile]
+      have : n = [45] ∨ n = [43] := by
+        simp only [isSign, Bool.or_eq_true, beq_iff_eq] at hn
+        rcases hn with h | h
+        · exact Or.inr h
+        · exact Or.inl h
+      rcases this with h | h
+      · subst h; simp
+      · subst h; simp
+    | cons m rest =>
+      have hm : isSign m = true := hs m (List.mem_cons_of_mem _ (List.mem_cons_self ..))
+      have ih' := ih (by simp) (fun x hx => hs x (List.mem_cons_of_mem _ hx))
+      simp only [signChain] at ih' ⊢
+      have hcons : applySigns (n :: m :: rest) (valOfNumberText t) =
+          if n == [45] then negateVal (applySigns (m :: rest) (valOfNumberText t)) else applySigns (m :: rest) (valOfNumberText t) := rfl
+      rw [hcons]
+      have hsc := applySigns_scalar (m :: rest) (valOfNumberText t) (valOfNumberText_scalar t)
+      generalize applySigns (m :: rest) (valOfNumberText t) = w at ih' hsc ⊢
+      rw [compile]
+      simp only [hn, hm, Bool.and_self, if_true]
+      rw [ih']
+      rcases hsc with ⟨d, hd⟩ | hnan
+      · subst hd
+        by_cases h45 : n = [45]
+        · subst h45; simp [negateVal]
+        · have h45' : (n == [45]) = false := by simpa using h45
+          simp [h45', h45]
+      · subst hnan
+        by_cases h45 : n = [45]
+        · subst h45; simp [negateVal]
+        · have h45' : (n == [45]) = false := by simpa using h45
+          simp [h45']
+
+/-- the chain the thorough tier found: `- + 279` is the single push of −279 -/
+example : compile (signChain [[45], [43]] (.leaf (.num n!"279"))) = [.push (applySigns [[45], [43]] (valOfNumberText n!"279"))] :=
+  C06_sign_chain_folds _ (by simp) (by simp [isSign]) _
+
+/-! ## The CLI pretty printer (`sqf_formatter.cpp`)
+
+`Pretty.prettyText` is the model of the bytes `prettify` writes (compared byte for byte with the implementation);
+`Pretty.prettyD` is the same output at token level. The printer lower-cases operator names and respells `$ff` as `0xff`:
+its text is that of the normal form `norm` of the tree. -/
+
+section PrettyPrinter
+open Sqf.Pretty
+
+/-- **the parentheses the pretty printer re-emits are enough**: for every statement list (any size, any nesting) whose
+operators have tokens, the parser reads the printed token sequence back as exactly the tree that was printed -/
+theorem C06_pretty_parens_suffice (tk : Name → PTok) (ss : List Ast) (h : GoodStmts tk ss) :
+    ∃ f, ∀ f', f ≤ f' → pStatements f' (skipSeps (prettyProgram tk ss).toks) = some (ss, [.eof]) := by
+  have := Sqf.Props.C01.C01_parse_render (prettyProgram tk ss) (prettyProgram_WP tk ss h)
+  rwa [prettyProgram_erase] at this
+
+/-- the same for the parser run with the driver's fuel: it can only produce the printed tree -/
+theorem C06_pretty_reads_back (tk : Name → PTok) (ss : List Ast) (h : GoodStmts tk ss) (x : List Ast)
+    (hx : parseToks (prettyProgram tk ss).toks = some x) : x = ss := by
+  have := Sqf.Props.C01.C01_parse_render_driver (prettyProgram tk ss) (prettyProgram_WP tk ss h) x hx
+  rwa [prettyProgram_erase] at this
+
+/-- the text written for a tree is the text written for its normal form -/
+theorem C06_pretty_text_normal_form (ss : List Ast) : prettyFile (normList ss) = prettyFile ss :=
+  prettyFile_norm ss
+
+/-- the normal form compiles to the same instructions -/
+theorem C06_pretty_normal_form_same_code (ss : List Ast) : compileStmts (normList ss) = compileStmts ss :=
+  compileStmts_norm ss
+
+/-- **pretty-printed code compiles to the same instruction sequence** (token level): whatever the parser reads from the
+tokens of the printed normal form compiles to the instructions of the original statements -/
+theorem C06_pretty_same_instructions (tk : Name → PTok) (ss : List Ast) (h : GoodStmts tk (normList ss)) (x : List Ast)
+    (hx : parseToks (prettyProgram tk (normList ss)).toks = some x) : compileStmts x = compileStmts ss := by
+  rw [C06_pretty_reads_back tk (normList ss) h x hx]
+  exact compileStmts_norm ss
+
+/-- a registry for the sample below: `+` binary (level 6) and unary, `*` binary (level 7), `hint` unary -/
+def sampleTk (n : Name) : PTok :=
+  if n == [43] then .op .bu 6 n else if n == [42] then .op .b 7 n else if n == n!"hint" then .opU n else .ident n
+
+/-- the premises are met by a tree that needs parentheses on both sides: `hint ((a + b) * (c * d))`, `x = [a, {b;}]` -/
+example : GoodStmts sampleTk
+    [.unary n!"hint" (.binary 7 [42] (.binary 6 [43] (.leaf (.ident [97])) (.leaf (.ident [98])))
+                                      (.binary 7 [42] (.leaf (.ident [99])) (.leaf (.ident [100])))),
+     .assign (.leaf (.ident [120])) (.array [.leaf (.ident [97]), .code [.leaf (.ident [98])]])] := by
+  simp [GoodStmts, Good, GoodElems, isExprA, isLeafA, sampleTk, unTok, leafTok, D.unOfTok, D.binOfTok, D.leafOfTok, kwPrivate, top]
+
+end PrettyPrinter
 
 /-! ## Non-vacuity / samples -/
 
